@@ -1,0 +1,83 @@
+//go:build verif && (verif_all || verif_c05)
+// +build verif
+// +build verif_all verif_c05
+
+package gocql
+
+// Verification hooks (build tag `verif`), property C05, event tier: observation and time compression of
+// the event pipeline of a session built by the real NewSession (Conn.recv stream -1 -> Session.handleEvent
+// -> eventDebouncer -> handleSchemaEvent / handleNodeEvent -> refreshDebouncer). Add-only; nothing here is
+// reachable without the tags. No handler is called from here: the hooks only look at the debouncers and
+// let a timer that the driver ARMED ITSELF expire now instead of after its second, so that the driver's own
+// flusher goroutines run the driver's own callbacks.
+
+func verifC05fBuffered(e *eventDebouncer) int {
+	if e == nil {
+		return -1
+	}
+	e.mu.Lock()
+	defer e.mu.Unlock()
+	return len(e.events)
+}
+
+// VerifC05fEventBuffers returns how many frames wait in the node-event and in the schema-event debouncer
+// of the session (-1: the session has no such debouncer).
+func VerifC05fEventBuffers(s *Session) (node, schema int) {
+	return verifC05fBuffered(s.nodeEvents), verifC05fBuffered(s.schemaEvents)
+}
+
+func verifC05fKick(e *eventDebouncer) bool {
+	if e == nil {
+		return false
+	}
+	e.mu.Lock()
+	defer e.mu.Unlock()
+	if e.timer.Stop() {
+		e.timer.Reset(0)
+		return true
+	}
+	return false
+}
+
+// VerifC05fKickEvents makes the debounce timers of the two event debouncers expire now if (and only if)
+// they are armed, and tells which were.
+func VerifC05fKickEvents(s *Session) (node, schema bool) {
+	return verifC05fKick(s.nodeEvents), verifC05fKick(s.schemaEvents)
+}
+
+// VerifC05fKickRingRefresh makes the ring-refresh debounce timer expire now if it is armed (somebody
+// called debounceRingRefresh and the refresh has not started yet), and tells whether it was.
+func VerifC05fKickRingRefresh(s *Session) bool {
+	d := s.ringRefresher
+	if d == nil {
+		return false
+	}
+	d.mu.Lock()
+	defer d.mu.Unlock()
+	if d.stopped {
+		return false
+	}
+	if d.timer.Stop() {
+		d.timer.Reset(0)
+		return true
+	}
+	return false
+}
+
+// VerifC05fHostState returns "<state>/<pool>" of the host with the given connect address: state is
+// up | down | unknown (not in the ring), pool is pool | nopool.
+func VerifC05fHostState(s *Session, ip string) string {
+	h, ok := s.ring.getHostByIP(ip)
+	if !ok {
+		return "unknown/nopool"
+	}
+	st := "down"
+	if h.IsUp() {
+		st = "up"
+	}
+	pool := "nopool"
+	if _, ok := s.pool.getPool(h); ok {
+		pool = "pool"
+	}
+	return st + "/" + pool
+}
